@@ -1,1 +1,959 @@
-//! (module to be written)
+//! Conditionals, `\expandafter` and `\noexpand` (tex.web §358, §366-369, §440-445, §487-510).
+//!
+//! Two independent things live here:
+//!
+//! 1. **Conditional trees** (`Cond`, `Shape`): a data type for well-nested conditionals, their rendering
+//!    as tokens, the token list TeX delivers for them *by construction* (the letters of the selected
+//!    branches), and a counting/unranking enumerator of all trees over a menu of variants.
+//! 2. **A reference expander** (`Expander`): a transliteration of TeX's `expand`, `get_x_token`,
+//!    `conditional`, `pass_text`, `scan_int` for a world of parameterless macros and the primitives
+//!    `\expandafter`, `\noexpand`, `\iftrue`, `\iffalse`, `\ifnum`, `\ifodd`, `\ifcase`, `\or`, `\else`,
+//!    `\fi`. The don't-expand marker that `\noexpand` leaves on the input (§358, §367-369) is modelled
+//!    explicitly; `keep_marker = false` describes an implementation that loses the marker when the
+//!    expansion step was requested by `\expandafter` (defect class D18 of the design).
+//!
+//! The checks require (1) and (2) to agree on every tree they run.
+
+use crate::macros::Tok;
+use std::collections::BTreeMap;
+
+pub const SPACE: Tok = Tok::Ch(' ', 10);
+
+// =================================================================================================
+// 1. conditional trees
+// =================================================================================================
+
+#[derive(Clone, Debug, PartialEq, Eq)]
+pub enum Head {
+    IfTrue,
+    IfFalse,
+    /// `\myif .. \myelse .. \myfi` where `\let\myif=\iftrue \let\myelse=\else \let\myfi=\fi`
+    AliasTrue,
+    /// `\ifnum a R b` with R one of `<`, `=`, `>`
+    IfNum(i64, char, i64),
+    IfOdd(i64),
+    /// `\ifcase n` followed by `ors` `\or`s
+    IfCase(i64),
+}
+
+#[derive(Clone, Debug, PartialEq, Eq)]
+pub struct Variant {
+    pub head: Head,
+    /// number of `\or`s (0 unless `IfCase`)
+    pub ors: usize,
+    pub has_else: bool,
+}
+
+impl Variant {
+    pub fn new(head: Head, ors: usize, has_else: bool) -> Variant {
+        let ors = if matches!(head, Head::IfCase(_)) { ors } else { 0 };
+        Variant { head, ors, has_else }
+    }
+    /// number of branch bodies
+    pub fn branches(&self) -> usize {
+        self.ors + 1 + self.has_else as usize
+    }
+    /// §501-§509: truth of the condition (None for `\ifcase`)
+    pub fn truth(&self) -> Option<bool> {
+        Some(match self.head {
+            Head::IfTrue | Head::AliasTrue => true,
+            Head::IfFalse => false,
+            Head::IfNum(a, r, b) => match r {
+                '<' => a < b,
+                '>' => a > b,
+                _ => a == b,
+            },
+            Head::IfOdd(n) => n.rem_euclid(2) == 1, // §504 odd(cur_val): true for negative odd numbers
+            Head::IfCase(_) => return None,
+        })
+    }
+    /// index of the branch whose tokens are delivered, if any
+    pub fn selected(&self) -> Option<usize> {
+        match self.head {
+            Head::IfCase(n) => {
+                if n >= 0 && (n as usize) <= self.ors {
+                    Some(n as usize)
+                } else if self.has_else {
+                    Some(self.ors + 1)
+                } else {
+                    None
+                }
+            }
+            _ => {
+                if self.truth().unwrap() {
+                    Some(0)
+                } else if self.has_else {
+                    Some(1)
+                } else {
+                    None
+                }
+            }
+        }
+    }
+    pub fn is_alias(&self) -> bool {
+        self.head == Head::AliasTrue
+    }
+    fn number(n: i64, out: &mut Vec<Tok>) {
+        for c in n.to_string().chars() {
+            out.push(Tok::Ch(c, 12));
+        }
+        out.push(SPACE); // operands are always terminated by a space
+    }
+    pub fn head_tokens(&self, out: &mut Vec<Tok>) {
+        match self.head {
+            Head::IfTrue => out.push(Tok::Cs("iftrue")),
+            Head::IfFalse => out.push(Tok::Cs("iffalse")),
+            Head::AliasTrue => out.push(Tok::Cs("myif")),
+            Head::IfNum(a, r, b) => {
+                out.push(Tok::Cs("ifnum"));
+                Self::number(a, out);
+                out.push(Tok::Ch(r, 12));
+                Self::number(b, out);
+            }
+            Head::IfOdd(n) => {
+                out.push(Tok::Cs("ifodd"));
+                Self::number(n, out);
+            }
+            Head::IfCase(n) => {
+                out.push(Tok::Cs("ifcase"));
+                Self::number(n, out);
+            }
+        }
+    }
+}
+
+#[derive(Clone, Debug, PartialEq, Eq)]
+pub enum Item {
+    /// a letter that is unique in the tree (assigned when the tree is rendered)
+    Letter,
+    Cond(Cond),
+    /// a token that may only stand in skipped text
+    Junk(Tok),
+}
+
+#[derive(Clone, Debug, PartialEq, Eq)]
+pub struct Cond {
+    pub v: Variant,
+    /// `v.branches()` bodies
+    pub bodies: Vec<Vec<Item>>,
+}
+
+/// How a body is situated with respect to skipping.
+#[derive(Clone, Copy, PartialEq, Eq, Debug)]
+pub enum Ctx {
+    /// its tokens are delivered
+    Live,
+    /// skipped branch of a conditional that is itself live (the skipper is at nesting level 0 here)
+    Skipped,
+    /// inside a conditional that lies in skipped text (the skipper is at nesting level >= 1 here)
+    Deep,
+}
+
+const LETTERS: &[u8] = b"abcdefghijklmnopqrstuvwxyzABCDEFGHIJKLMNOPQRSTUVWXY";
+
+pub struct Rendered {
+    pub tokens: Vec<Tok>,
+    /// the tokens TeX delivers: the letters of the live bodies, in order
+    pub expected: Vec<Tok>,
+    pub facts: TreeFacts,
+}
+#[derive(Clone, Copy, Default, Debug)]
+pub struct TreeFacts {
+    pub nodes: usize,
+    pub depth: usize,
+    pub some_branch_skipped: bool,
+    pub some_branch_delivered: bool,
+    pub aliased_conditional_in_skipped_text: bool,
+    pub or_at_depth_gt0_in_skipped_text: bool,
+    pub else_at_depth_gt0_in_skipped_text: bool,
+    pub ifcase_out_of_range: bool,
+    pub ifcase_negative: bool,
+    pub negative_odd_live: bool,
+    pub brace_in_skipped_text: bool,
+    pub live_branch_ended_by_or: bool,
+    pub letters: usize,
+}
+
+impl Cond {
+    pub fn render(&self) -> Rendered {
+        let mut r = Rendered { tokens: vec![], expected: vec![], facts: TreeFacts::default() };
+        let mut next_letter = 0usize;
+        self.render_into(Ctx::Live, 1, &mut next_letter, &mut r);
+        r.facts.letters = next_letter;
+        r
+    }
+    fn render_into(&self, ctx: Ctx, depth: usize, next_letter: &mut usize, r: &mut Rendered) {
+        let live = ctx == Ctx::Live;
+        r.facts.nodes += 1;
+        r.facts.depth = r.facts.depth.max(depth);
+        if !live && self.v.is_alias() {
+            r.facts.aliased_conditional_in_skipped_text = true;
+        }
+        if !live && self.v.ors > 0 {
+            r.facts.or_at_depth_gt0_in_skipped_text = true;
+        }
+        if !live && self.v.has_else {
+            r.facts.else_at_depth_gt0_in_skipped_text = true;
+        }
+        if live {
+            if let Head::IfCase(n) = self.v.head {
+                if n < 0 {
+                    r.facts.ifcase_negative = true;
+                } else if n as usize > self.v.ors {
+                    r.facts.ifcase_out_of_range = true;
+                }
+            }
+            if let Head::IfOdd(n) = self.v.head {
+                if n < 0 && n % 2 != 0 {
+                    r.facts.negative_odd_live = true;
+                }
+            }
+        }
+        self.v.head_tokens(&mut r.tokens);
+        let sel = if live { self.v.selected() } else { None };
+        for (i, body) in self.bodies.iter().enumerate() {
+            if i > 0 {
+                if self.v.has_else && i == self.bodies.len() - 1 {
+                    r.tokens.push(Tok::Cs(if self.v.is_alias() { "myelse" } else { "else" }));
+                } else {
+                    r.tokens.push(Tok::Cs("or"));
+                }
+            }
+            let bctx = match ctx {
+                Ctx::Live if sel == Some(i) => Ctx::Live,
+                Ctx::Live => Ctx::Skipped,
+                _ => Ctx::Deep,
+            };
+            if live {
+                if bctx == Ctx::Live {
+                    r.facts.some_branch_delivered = true;
+                    if matches!(self.v.head, Head::IfCase(_)) && i < self.v.ors {
+                        r.facts.live_branch_ended_by_or = true;
+                    }
+                } else {
+                    r.facts.some_branch_skipped = true;
+                }
+            }
+            for it in body {
+                match it {
+                    Item::Letter => {
+                        let t = Tok::Ch(LETTERS[*next_letter % LETTERS.len()] as char, 11);
+                        *next_letter += 1;
+                        r.tokens.push(t);
+                        if bctx == Ctx::Live {
+                            r.expected.push(t);
+                        }
+                    }
+                    Item::Junk(t) => {
+                        assert!(bctx != Ctx::Live, "junk in a live body");
+                        if t.is_brace() {
+                            r.facts.brace_in_skipped_text = true;
+                        }
+                        if *t == Tok::Cs("or") {
+                            r.facts.or_at_depth_gt0_in_skipped_text = true;
+                        }
+                        if *t == Tok::Cs("else") || *t == Tok::Cs("myelse") {
+                            r.facts.else_at_depth_gt0_in_skipped_text = true;
+                        }
+                        r.tokens.push(*t);
+                    }
+                    Item::Cond(c) => c.render_into(bctx, depth + 1, next_letter, r),
+                }
+            }
+        }
+        r.tokens.push(Tok::Cs(if self.v.is_alias() { "myfi" } else { "fi" }));
+    }
+
+    /// The places where a junk token can be inserted: (path of body, position in the body, context).
+    /// A path is a list of (item index in the enclosing body is implicit) steps: it addresses the
+    /// `k`-th skipped/deep body in rendering order.
+    pub fn junk_slots(&self) -> Vec<(usize, usize, Ctx)> {
+        let mut out = vec![];
+        let mut body_no = 0usize;
+        self.slots_into(Ctx::Live, &mut body_no, &mut out);
+        out
+    }
+    fn slots_into(&self, ctx: Ctx, body_no: &mut usize, out: &mut Vec<(usize, usize, Ctx)>) {
+        let sel = if ctx == Ctx::Live { self.v.selected() } else { None };
+        for (i, body) in self.bodies.iter().enumerate() {
+            let bctx = match ctx {
+                Ctx::Live if sel == Some(i) => Ctx::Live,
+                Ctx::Live => Ctx::Skipped,
+                _ => Ctx::Deep,
+            };
+            let my_no = *body_no;
+            *body_no += 1;
+            if bctx != Ctx::Live {
+                for pos in 0..=body.len() {
+                    out.push((my_no, pos, bctx));
+                }
+            }
+            for it in body {
+                if let Item::Cond(c) = it {
+                    c.slots_into(bctx, body_no, out);
+                }
+            }
+        }
+    }
+    /// Insert `junk` at position `pos` of body number `body_no` (numbering of `junk_slots`).
+    pub fn insert_junk(&mut self, body_no: usize, pos: usize, junk: Tok) {
+        let mut n = 0usize;
+        let done = self.insert_into(body_no, pos, junk, &mut n);
+        assert!(done, "no such body");
+    }
+    fn insert_into(&mut self, target: usize, pos: usize, junk: Tok, n: &mut usize) -> bool {
+        for body in self.bodies.iter_mut() {
+            let my_no = *n;
+            *n += 1;
+            if my_no == target {
+                body.insert(pos, Item::Junk(junk));
+                return true;
+            }
+            for it in body.iter_mut() {
+                if let Item::Cond(c) = it {
+                    if c.insert_into(target, pos, junk, n) {
+                        return true;
+                    }
+                }
+            }
+        }
+        false
+    }
+}
+
+/// Junk that may stand at a slot of the given context without making TeX complain:
+/// braces and a macro hiding a `\fi` anywhere in skipped text; `\or` and `\else` only where the
+/// skipping routine is at nesting level >= 1 (§494 `pass_text` ignores them there; at level 0 TeX
+/// would treat them as belonging to the conditional being skipped).
+pub fn junk_menu(ctx: Ctx) -> Vec<Tok> {
+    let mut v = vec![Tok::Ch('{', 1), Tok::Ch('}', 2), Tok::Cs("hidfi")];
+    if ctx == Ctx::Deep {
+        v.push(Tok::Cs("or"));
+        v.push(Tok::Cs("else"));
+    }
+    if ctx == Ctx::Live {
+        v.clear();
+    }
+    v
+}
+
+// ------------------------------------------------------------------ enumeration of all trees
+
+#[derive(Clone, Copy, PartialEq, Eq, Debug)]
+pub enum FormItem {
+    L,
+    C,
+}
+
+/// All conditionals with 1..=max_nodes nodes and nesting depth <= max_depth whose nodes are taken from
+/// `variants` and whose bodies are taken from `forms` (sequences over {letter, nested conditional}).
+pub struct Shape {
+    pub variants: Vec<Variant>,
+    pub forms: Vec<Vec<FormItem>>,
+    pub max_nodes: usize,
+    pub max_depth: usize,
+    /// cond[n][d]: conditionals with exactly n nodes, depth <= d
+    cond: Vec<Vec<u64>>,
+    /// body[n][d]: bodies containing exactly n nodes, nested conditionals of depth <= d
+    body: Vec<Vec<u64>>,
+    /// seq[k][n][d]: k-tuples of bodies with n nodes in total
+    seq: Vec<Vec<Vec<u64>>>,
+}
+
+impl Shape {
+    pub fn new(variants: Vec<Variant>, forms: Vec<Vec<FormItem>>, max_nodes: usize, max_depth: usize) -> Shape {
+        let maxk = variants.iter().map(|v| v.branches()).max().unwrap_or(0);
+        let (n1, d1) = (max_nodes + 1, max_depth + 1);
+        let mut s = Shape { variants, forms, max_nodes, max_depth, cond: vec![vec![0; d1]; n1], body: vec![vec![0; d1]; n1], seq: vec![vec![vec![0; d1]; n1]; maxk + 1] };
+        // depth d tables depend on depth d-1 tables of conds; fill by increasing d, then n
+        for d in 0..d1 {
+            for n in 0..n1 {
+                // cond[n][d]
+                if n >= 1 && d >= 1 {
+                    let mut c = 0u64;
+                    for v in &s.variants {
+                        c += s.seq[v.branches()][n - 1][d - 1];
+                    }
+                    s.cond[n][d] = c;
+                }
+            }
+            for n in 0..n1 {
+                let mut b = 0u64;
+                for f in &s.forms {
+                    b += s.form_count(f, n, d);
+                }
+                s.body[n][d] = b;
+            }
+            for k in 0..=maxk {
+                for n in 0..n1 {
+                    s.seq[k][n][d] = if k == 0 {
+                        (n == 0) as u64
+                    } else {
+                        (0..=n).map(|j| s.body[j][d] * s.seq[k - 1][n - j][d]).sum()
+                    };
+                }
+            }
+        }
+        s
+    }
+    fn form_count(&self, f: &[FormItem], n: usize, d: usize) -> u64 {
+        let c = f.iter().filter(|x| **x == FormItem::C).count();
+        match c {
+            0 => (n == 0) as u64,
+            1 => self.cond[n][d],
+            2 => (1..n).map(|j| self.cond[j][d] * self.cond[n - j][d]).sum(),
+            _ => panic!("at most two nested conditionals per body"),
+        }
+    }
+    pub fn total(&self) -> u64 {
+        (1..=self.max_nodes).map(|n| self.cond[n][self.max_depth]).sum()
+    }
+    pub fn count_with_nodes(&self, n: usize) -> u64 {
+        self.cond[n][self.max_depth]
+    }
+    pub fn unrank(&self, mut idx: u64) -> Cond {
+        for n in 1..=self.max_nodes {
+            let c = self.cond[n][self.max_depth];
+            if idx < c {
+                return self.unrank_cond(idx, n, self.max_depth);
+            }
+            idx -= c;
+        }
+        panic!("index out of range");
+    }
+    fn unrank_cond(&self, mut idx: u64, n: usize, d: usize) -> Cond {
+        for v in &self.variants {
+            let c = self.seq[v.branches()][n - 1][d - 1];
+            if idx < c {
+                return Cond { v: v.clone(), bodies: self.unrank_seq(idx, v.branches(), n - 1, d - 1) };
+            }
+            idx -= c;
+        }
+        panic!("unrank_cond");
+    }
+    fn unrank_seq(&self, mut idx: u64, k: usize, n: usize, d: usize) -> Vec<Vec<Item>> {
+        if k == 0 {
+            return vec![];
+        }
+        for j in 0..=n {
+            let c = self.body[j][d] * self.seq[k - 1][n - j][d];
+            if idx < c {
+                let rest = self.seq[k - 1][n - j][d];
+                let mut v = vec![self.unrank_body(idx / rest, j, d)];
+                v.extend(self.unrank_seq(idx % rest, k - 1, n - j, d));
+                return v;
+            }
+            idx -= c;
+        }
+        panic!("unrank_seq");
+    }
+    fn unrank_body(&self, mut idx: u64, n: usize, d: usize) -> Vec<Item> {
+        for f in &self.forms {
+            let c = self.form_count(f, n, d);
+            if idx < c {
+                let nc = f.iter().filter(|x| **x == FormItem::C).count();
+                let conds: Vec<Cond> = match nc {
+                    0 => vec![],
+                    1 => vec![self.unrank_cond(idx, n, d)],
+                    _ => {
+                        let mut out = vec![];
+                        for j in 1..n {
+                            let cj = self.cond[j][d] * self.cond[n - j][d];
+                            if idx < cj {
+                                let r = self.cond[n - j][d];
+                                out = vec![self.unrank_cond(idx / r, j, d), self.unrank_cond(idx % r, n - j, d)];
+                                break;
+                            }
+                            idx -= cj;
+                        }
+                        out
+                    }
+                };
+                let mut it = conds.into_iter();
+                return f
+                    .iter()
+                    .map(|x| match x {
+                        FormItem::L => Item::Letter,
+                        FormItem::C => Item::Cond(it.next().expect("cond")),
+                    })
+                    .collect();
+            }
+            idx -= c;
+        }
+        panic!("unrank_body");
+    }
+}
+
+// =================================================================================================
+// 2. reference expander
+// =================================================================================================
+
+#[derive(Clone, Debug, PartialEq, Eq)]
+pub enum Meaning {
+    /// parameterless macro
+    Macro(Vec<Tok>),
+    ExpandAfter,
+    NoExpand,
+    IfTrue,
+    IfFalse,
+    IfNum,
+    IfOdd,
+    IfCase,
+    Else,
+    Fi,
+    Or,
+    /// `\relax` and every other unexpandable primitive
+    Unexpandable,
+    /// no meaning (§366: expanding it is the error "Undefined control sequence")
+    Undefined(&'static str),
+}
+impl Meaning {
+    /// `cur_cmd > max_command`
+    pub fn expandable(&self) -> bool {
+        !matches!(self, Meaning::Unexpandable)
+    }
+}
+pub type Env = BTreeMap<&'static str, Meaning>;
+
+/// The primitives under their usual names.
+pub fn primitives() -> Env {
+    BTreeMap::from([
+        ("xa", Meaning::ExpandAfter),
+        ("noexpand", Meaning::NoExpand),
+        ("iftrue", Meaning::IfTrue),
+        ("iffalse", Meaning::IfFalse),
+        ("ifnum", Meaning::IfNum),
+        ("ifodd", Meaning::IfOdd),
+        ("ifcase", Meaning::IfCase),
+        ("else", Meaning::Else),
+        ("fi", Meaning::Fi),
+        ("or", Meaning::Or),
+        ("relax", Meaning::Unexpandable),
+        ("END", Meaning::Unexpandable),
+    ])
+}
+
+#[derive(Clone, Debug, PartialEq, Eq)]
+pub enum Stop {
+    /// the token list ended where TeX needs another token (fatal in TeX: the file ended)
+    EndOfInput,
+    /// §510 "Extra \else / \fi / \or", §500 "Extra \or"
+    Extra(&'static str),
+    /// §403/§415 "Missing number", §503 "Missing = inserted for \ifnum", §445 "Number too big"
+    BadNumber(&'static str),
+    /// behaviour the model does not cover (stated domain restriction of the check), e.g. §510 insert_relax
+    /// while a condition is still being evaluated
+    OutsideDomain(&'static str),
+    /// expansion budget of the model exhausted
+    Budget,
+    /// a control sequence without meaning was met (TeX: "Undefined control sequence")
+    Undefined(&'static str),
+}
+
+#[derive(Clone, Copy, Debug, Default, PartialEq, Eq)]
+pub struct Events {
+    /// an `\expandafter` performed its expansion step on `\noexpand` followed by an expandable token
+    pub xa_on_noexpand_expandable: bool,
+    /// ... by any control sequence token
+    pub xa_on_noexpand: bool,
+    /// deepest recursion of `\expandafter` expanding `\expandafter`
+    pub xa_chain: usize,
+    /// a marked token was read while text was being skipped
+    pub marked_token_skipped: bool,
+    /// a marked token was read as the first or second token of an `\expandafter` or by `\noexpand` (the marker is dropped by back_input)
+    pub marker_dropped_by_backup: bool,
+    pub expansions: usize,
+    pub max_cond_depth: usize,
+}
+
+// §489 codes
+const IF_CODE: u8 = 1;
+const FI_CODE: u8 = 2;
+const ELSE_CODE: u8 = 3;
+const OR_CODE: u8 = 4;
+
+#[derive(Clone, Copy, PartialEq, Eq)]
+enum Site {
+    Main,
+    ExpandAfter,
+}
+
+pub struct Expander<'a> {
+    env: &'a Env,
+    /// the input, last element = next token; the flag is the don't-expand marker in front of the token
+    stack: Vec<(Tok, bool)>,
+    /// `if_limit` of every open conditional (§489: cond_ptr stack), last = innermost
+    limits: Vec<u8>,
+    pub out: Vec<Tok>,
+    pub keep_marker: bool,
+    pub budget: usize,
+    pub events: Events,
+    xa_depth: usize,
+}
+
+impl<'a> Expander<'a> {
+    pub fn new(env: &'a Env, input: &[Tok], keep_marker: bool) -> Expander<'a> {
+        Expander { env, stack: input.iter().rev().map(|t| (*t, false)).collect(), limits: vec![], out: vec![], keep_marker, budget: 5000, events: Events::default(), xa_depth: 0 }
+    }
+    /// Run to the end of the input; the delivered tokens are in `out` (also after a `Stop`).
+    pub fn run(&mut self) -> Result<(), Stop> {
+        while let Some((t, _)) = self.get_x_token()? {
+            self.out.push(t);
+        }
+        Ok(())
+    }
+    pub fn open_conditionals(&self) -> usize {
+        self.limits.len()
+    }
+    fn meaning(&self, t: Tok) -> Meaning {
+        match t {
+            Tok::Cs(n) => self.env.get(n).cloned().unwrap_or(Meaning::Undefined(n)),
+            _ => Meaning::Unexpandable,
+        }
+    }
+    /// §357-358 get_next: (token, its meaning, "meaning replaced by \relax because of a don't-expand marker")
+    fn get_next(&mut self) -> Result<Option<(Tok, Meaning, bool)>, Stop> {
+        match self.stack.pop() {
+            None => Ok(None),
+            Some((t, marked)) => {
+                let m = self.meaning(t);
+                if marked && m.expandable() {
+                    // §358: cur_cmd:=relax; cur_chr:=no_expand_flag
+                    Ok(Some((t, Meaning::Unexpandable, true)))
+                } else {
+                    Ok(Some((t, m, false)))
+                }
+            }
+        }
+    }
+    /// §325 back_input: only the token goes back, a marker is not re-created
+    fn back_input(&mut self, t: Tok) {
+        self.stack.push((t, false));
+    }
+    /// §380 get_x_token
+    fn get_x_token(&mut self) -> Result<Option<(Tok, bool)>, Stop> {
+        loop {
+            match self.get_next()? {
+                None => return Ok(None),
+                Some((t, m, noexp)) => {
+                    if m.expandable() {
+                        self.expand(m, Site::Main)?;
+                    } else {
+                        return Ok(Some((t, noexp)));
+                    }
+                }
+            }
+        }
+    }
+    /// §366 expand (and §389 macro_call for parameterless macros)
+    fn expand(&mut self, m: Meaning, site: Site) -> Result<(), Stop> {
+        self.events.expansions += 1;
+        if self.events.expansions > self.budget {
+            return Err(Stop::Budget);
+        }
+        match m {
+            Meaning::Macro(body) => {
+                for t in body.iter().rev() {
+                    self.stack.push((*t, false));
+                }
+                Ok(())
+            }
+            Meaning::ExpandAfter => {
+                // §368: get_token; t:=cur_tok; get_token; if cur_cmd>max_command then expand else back_input; cur_tok:=t; back_input
+                let (t, _, dropped1) = self.get_next()?.ok_or(Stop::EndOfInput)?;
+                let (t2, m2, dropped2) = self.get_next()?.ok_or(Stop::EndOfInput)?;
+                if dropped1 || dropped2 {
+                    self.events.marker_dropped_by_backup = true;
+                }
+                if m2.expandable() {
+                    self.xa_depth += 1;
+                    if m2 == Meaning::ExpandAfter {
+                        self.events.xa_chain = self.events.xa_chain.max(self.xa_depth + 1);
+                    }
+                    let r = self.expand(m2, Site::ExpandAfter);
+                    self.xa_depth -= 1;
+                    r?;
+                } else {
+                    self.back_input(t2);
+                }
+                self.back_input(t);
+                Ok(())
+            }
+            Meaning::NoExpand => {
+                // §367: get_token; t:=cur_tok; back_input; if t>=cs_token_flag then put a frozen_dont_expand marker in front
+                let (t, _, dropped) = self.get_next()?.ok_or(Stop::EndOfInput)?;
+                if dropped {
+                    self.events.marker_dropped_by_backup = true;
+                }
+                let is_cs = matches!(t, Tok::Cs(_) | Tok::Ch(_, 13));
+                if site == Site::ExpandAfter && is_cs {
+                    self.events.xa_on_noexpand = true;
+                    if self.meaning(t).expandable() {
+                        self.events.xa_on_noexpand_expandable = true;
+                    }
+                }
+                let keep = self.keep_marker || site == Site::Main;
+                self.stack.push((t, is_cs && keep));
+                Ok(())
+            }
+            Meaning::IfTrue | Meaning::IfFalse | Meaning::IfNum | Meaning::IfOdd | Meaning::IfCase => self.conditional(m),
+            Meaning::Fi => self.fi_or_else(FI_CODE),
+            Meaning::Else => self.fi_or_else(ELSE_CODE),
+            Meaning::Or => self.fi_or_else(OR_CODE),
+            Meaning::Undefined(n) => Err(Stop::Undefined(n)),
+            Meaning::Unexpandable => unreachable!(),
+        }
+    }
+    /// §494 pass_text: skip to the next `\fi`, `\else` or `\or` at level 0; returns its code
+    fn pass_text(&mut self) -> Result<u8, Stop> {
+        let mut l = 0usize;
+        loop {
+            let (_, m, noexp) = self.get_next()?.ok_or(Stop::EndOfInput)?;
+            if noexp {
+                self.events.marked_token_skipped = true;
+            }
+            let code = match m {
+                Meaning::Fi => FI_CODE,
+                Meaning::Else => ELSE_CODE,
+                Meaning::Or => OR_CODE,
+                Meaning::IfTrue | Meaning::IfFalse | Meaning::IfNum | Meaning::IfOdd | Meaning::IfCase => {
+                    l += 1;
+                    continue;
+                }
+                _ => continue,
+            };
+            if l == 0 {
+                return Ok(code);
+            }
+            if code == FI_CODE {
+                l -= 1;
+            }
+        }
+    }
+    /// §496 pop the condition stack
+    fn pop_cond(&mut self) {
+        self.limits.pop();
+    }
+    /// §498 conditional
+    fn conditional(&mut self, m: Meaning) -> Result<(), Stop> {
+        // §495 push the condition stack; if_limit:=if_code
+        self.limits.push(IF_CODE);
+        self.events.max_cond_depth = self.events.max_cond_depth.max(self.limits.len());
+        let save = self.limits.len(); // identifies this conditional: it is limits[save-1]
+        let b = match m {
+            Meaning::IfTrue => true,
+            Meaning::IfFalse => false,
+            Meaning::IfNum => {
+                // §503
+                let a = self.scan_int()?;
+                let r = loop {
+                    // §406 get the next non-blank non-call token
+                    let (t, _) = self.get_x_token()?.ok_or(Stop::EndOfInput)?;
+                    if !matches!(t, Tok::Ch(_, 10)) {
+                        break t;
+                    }
+                };
+                let r = match r {
+                    Tok::Ch(c @ ('<' | '=' | '>'), 12) => c,
+                    _ => return Err(Stop::BadNumber("Missing = inserted for \\ifnum")),
+                };
+                let b = self.scan_int()?;
+                match r {
+                    '<' => a < b,
+                    '>' => a > b,
+                    _ => a == b,
+                }
+            }
+            Meaning::IfOdd => self.scan_int()?.rem_euclid(2) == 1, // §504 odd(cur_val)
+            Meaning::IfCase => {
+                // §509
+                let mut n = self.scan_int()?;
+                while n != 0 {
+                    let code = self.pass_text()?;
+                    if self.limits.len() == save {
+                        if code == OR_CODE {
+                            n -= 1;
+                        } else {
+                            // goto common_ending
+                            if code == FI_CODE {
+                                self.pop_cond();
+                            } else {
+                                self.limits[save - 1] = FI_CODE;
+                            }
+                            return Ok(());
+                        }
+                    } else if code == FI_CODE {
+                        self.pop_cond();
+                    }
+                }
+                self.limits[save - 1] = OR_CODE; // change_if_limit(or_code, save_cond_ptr)
+                return Ok(()); // wait for \or, \else, or \fi
+            }
+            _ => unreachable!(),
+        };
+        if b {
+            self.limits[save - 1] = ELSE_CODE; // change_if_limit(else_code, save_cond_ptr): wait for \else or \fi
+            return Ok(());
+        }
+        // §500 skip to \else or \fi, then goto common_ending
+        let code = loop {
+            let code = self.pass_text()?;
+            if self.limits.len() == save {
+                if code != OR_CODE {
+                    break code;
+                }
+                return Err(Stop::Extra("or"));
+            } else if code == FI_CODE {
+                self.pop_cond();
+            }
+        };
+        // common_ending
+        if code == FI_CODE {
+            self.pop_cond();
+        } else {
+            self.limits[save - 1] = FI_CODE; // wait for \fi
+        }
+        Ok(())
+    }
+    /// §510 terminate the current conditional and skip to \fi
+    fn fi_or_else(&mut self, code: u8) -> Result<(), Stop> {
+        let if_limit = self.limits.last().copied().unwrap_or(0);
+        if code > if_limit {
+            if if_limit == IF_CODE {
+                // insert_relax: the condition is not yet evaluated (\ifnum1<2\else ...)
+                return Err(Stop::OutsideDomain("\\fi, \\else or \\or met while a condition was being scanned (TeX inserts \\relax)"));
+            }
+            return Err(Stop::Extra(match code {
+                FI_CODE => "fi",
+                ELSE_CODE => "else",
+                _ => "or",
+            }));
+        }
+        let mut c = code;
+        while c != FI_CODE {
+            c = self.pass_text()?; // skip to \fi
+        }
+        self.pop_cond();
+        Ok(())
+    }
+    /// §440-§445 scan_int for decimal constants
+    fn scan_int(&mut self) -> Result<i64, Stop> {
+        let mut negative = false;
+        // §441 get the next non-blank non-sign token; set negative appropriately
+        let mut cur = loop {
+            let t = loop {
+                let (t, _) = self.get_x_token()?.ok_or(Stop::EndOfInput)?;
+                if !matches!(t, Tok::Ch(_, 10)) {
+                    break t;
+                }
+            };
+            if t == Tok::Ch('-', 12) {
+                negative = !negative;
+            } else if t != Tok::Ch('+', 12) {
+                break t;
+            }
+        };
+        if !matches!(cur, Tok::Ch('0'..='9', 12)) {
+            return Err(Stop::BadNumber("Missing number (or a non-decimal constant, which this model does not cover)"));
+        }
+        // §444-445 accumulate the constant until cur_tok is not a suitable digit
+        let mut val = 0i64;
+        loop {
+            match cur {
+                Tok::Ch(d @ '0'..='9', 12) => {
+                    val = val * 10 + (d as i64 - '0' as i64);
+                    if val > crate::arith::INFINITY {
+                        return Err(Stop::BadNumber("Number too big"));
+                    }
+                }
+                _ => {
+                    // §444: if cur_cmd<>spacer then back_input
+                    if !matches!(cur, Tok::Ch(_, 10)) {
+                        self.back_input(cur);
+                    }
+                    break;
+                }
+            }
+            cur = match self.get_x_token()? {
+                Some((t, _)) => t,
+                None => return Err(Stop::EndOfInput),
+            };
+        }
+        Ok(if negative { -val } else { val })
+    }
+}
+
+/// Convenience: run the expander; `Ok(delivered tokens)` or the reason it stopped.
+pub fn expand_all(env: &Env, input: &[Tok], keep_marker: bool) -> (Result<Vec<Tok>, Stop>, Events) {
+    let mut e = Expander::new(env, input, keep_marker);
+    let r = e.run();
+    let ev = e.events;
+    (r.map(|_| e.out), ev)
+}
+
+#[cfg(test)]
+mod tests {
+    use super::*;
+    fn cs(n: &'static str) -> Tok {
+        Tok::Cs(n)
+    }
+    fn ch(c: char) -> Tok {
+        Tok::Ch(c, if c.is_ascii_alphabetic() { 11 } else { 12 })
+    }
+    fn env() -> Env {
+        let mut e = primitives();
+        e.insert("a", Meaning::Macro(vec![cs("b")]));
+        e.insert("b", Meaning::Macro(vec![ch('y')]));
+        e.insert("c", Meaning::Macro(vec![]));
+        e
+    }
+    #[test]
+    fn noexpand_marker() {
+        let e = env();
+        // \xa\a\noexpand\a : TeX delivers y \a ; an implementation that loses the marker delivers y y
+        let inp = [cs("xa"), cs("a"), cs("noexpand"), cs("a")];
+        assert_eq!(expand_all(&e, &inp, true).0, Ok(vec![ch('y'), cs("a")]));
+        assert_eq!(expand_all(&e, &inp, false).0, Ok(vec![ch('y'), ch('y')]));
+        // the repository's test only_expands_once: \xa\noexpand\A -> \B (here \a -> \b)
+        assert_eq!(expand_all(&e, &[cs("xa"), cs("noexpand"), cs("a")], true).0, Ok(vec![cs("b")]));
+        // marker dropped when the marked token is backed up by an outer \expandafter
+        let inp = [cs("xa"), cs("xa"), cs("xa"), ch('x'), cs("noexpand"), cs("a")];
+        assert_eq!(expand_all(&e, &inp, true).0, Ok(vec![ch('x'), ch('y')]));
+    }
+    #[test]
+    fn conditionals() {
+        let e = env();
+        let sp = SPACE;
+        let inp = [cs("ifnum"), ch('1'), sp, ch('<'), ch('2'), sp, ch('p'), cs("else"), ch('q'), cs("fi"), ch('r')];
+        assert_eq!(expand_all(&e, &inp, true).0, Ok(vec![ch('p'), ch('r')]));
+        let inp = [cs("ifodd"), ch('-'), ch('3'), sp, ch('p'), cs("else"), ch('q'), cs("fi")];
+        assert_eq!(expand_all(&e, &inp, true).0, Ok(vec![ch('p')]));
+        let inp = [cs("ifcase"), ch('1'), sp, ch('p'), cs("iftrue"), cs("or"), cs("fi"), cs("or"), ch('q'), cs("or"), ch('r'), cs("else"), ch('s'), cs("fi"), ch('t')];
+        assert_eq!(expand_all(&e, &inp, true).0, Ok(vec![ch('q'), ch('t')]));
+        let inp = [cs("iftrue"), ch('p'), cs("or"), cs("fi")];
+        assert_eq!(expand_all(&e, &inp, true).0, Err(Stop::Extra("or")));
+        let inp = [cs("ifnum"), ch('1'), ch('<'), ch('2'), cs("else"), cs("fi")];
+        assert!(matches!(expand_all(&e, &inp, true).0, Err(Stop::OutsideDomain(_))));
+    }
+    #[test]
+    fn enumeration_is_a_bijection() {
+        let variants = vec![Variant::new(Head::IfTrue, 0, false), Variant::new(Head::IfFalse, 0, true), Variant::new(Head::IfCase(1), 1, false)];
+        let forms = vec![vec![FormItem::L], vec![FormItem::C], vec![FormItem::L, FormItem::C], vec![FormItem::C, FormItem::C]];
+        let s = Shape::new(variants, forms, 4, 3);
+        let n = s.total();
+        assert!(n > 100);
+        let mut seen = std::collections::HashSet::new();
+        let e = {
+            let mut e = primitives();
+            e.insert("myif", Meaning::IfTrue);
+            e
+        };
+        for i in 0..n {
+            let c = s.unrank(i);
+            let r = c.render();
+            assert!(r.facts.nodes <= 4 && r.facts.depth <= 3);
+            assert!(seen.insert(format!("{:?}", c)), "duplicate tree at {i}");
+            assert_eq!(expand_all(&e, &r.tokens, true).0, Ok(r.expected.clone()), "tree {i}");
+        }
+    }
+}
